@@ -58,6 +58,7 @@ UNIT = {
             ("replace", "src_bytes.is_empty()", "(src_bytes.len() == 0)", "R6")]),
         {"block": "struct", "header": r"struct HeapWriter < 'a >", "file": F_H, "rewrites": ["strip_type_head"] + R7},
         m("Heap", "reserve"),
+        m("Heap", "copy_slice_to_end"),
         m("ReservedHeapSection", "cell_len"),
         m("ReservedHeapSection", "push_cell"),
         m("ReservedHeapSection", "push_pstr_segment", extra=[("replace", "src: &str", "src: StrRef", "R7")]),
